@@ -123,6 +123,16 @@ theorem C15_atomic : C15_atomic_statement := by
   have h := atomic_seq MontePyVerif.Gen.WriteOrder.sequence p d ow plan
   exact ⟨h.2.1, h.2.2.1⟩
 
+/-- **C15_atomic_written** — the same for the writer as it is now (trailing blanks of every formatted
+    line are dropped before it is written): the destination is what it was or the complete text. -/
+theorem C15_atomic_written (p : Problem) (d : Dest) (ow : Bool) (plan : Fault) :
+    (writeToFileNow p ⟨d, none⟩ ow plan).2.tmp = none ∧
+    ((writeToFileNow p ⟨d, none⟩ ow plan).2.dest = d ∨
+      ∃ ls, renderNow p = some ls ∧ (writeToFileNow p ⟨d, none⟩ ow plan).2.dest = .file ls) := by
+  have h := C15_atomic p.strip d ow plan
+  have t := (atomic_seq MontePyVerif.Gen.WriteOrder.sequence p.strip d ow plan).1
+  exact ⟨t, by simpa [writeToFileNow, renderNow] using h.1⟩
+
 /-- **C15_no_temp_left** — on every path (normal return or any exception) no temporary file remains. -/
 theorem C15_no_temp_left (p : Problem) (d : Dest) (ow : Bool) (plan : Fault) :
     (writeToFile p ⟨d, none⟩ ow plan).2.tmp = none :=
